@@ -4,7 +4,7 @@ From Coq Require Import String.
 From Coq Require Import List Ascii ZArith Bool Lia Sorting.Sorted Sorting.Permutation.
 From CGV Require Hydro.Squash Compose.GraphAdj Compose.RelabelEdges.
 From CGV Require Import Base.PyBase Base.PyVal Base.NxGraph Resolve.Bonding Resolve.GraphOps Resolve.Pipeline
-     Resolve.MapDefs Resolve.Witness Resolve.SortProofs Resolve.VirtualProofs Resolve.SortGraphProofs Resolve.DriversInst Resolve.NameProofs Resolve.NameStep Resolve.NameClosed Resolve.SingleFragid Resolve.CopyProofs Resolve.FragidProofs Resolve.PipelineFull.
+     Resolve.MapDefs Resolve.Witness Resolve.SortProofs Resolve.VirtualProofs Resolve.SortGraphProofs Resolve.DriversInst Resolve.NameProofs Resolve.NameShared Resolve.NameStep Resolve.NameClosed Resolve.SingleFragid Resolve.CopyProofs Resolve.FragidProofs Resolve.PipelineFull.
 From CGV Require Import Hydro.SquashDefs.
 From CGV Require Hydro.SquashProofs.
 Import ListNotations.
@@ -266,6 +266,85 @@ Proof.
     + cbn. repeat split; intros n Hin Hseen; cbn in Hin, Hseen; intuition (subst; try discriminate; try reflexivity).
 Qed.
 
+(** ---- WHICH index an atom gets when atoms are shared (Resolve/NameShared.v), on GraphOps.set_atom_names = the repaired
+    set_atom_names_atomistic (/repo 8dbd471 + e15e5bd).  The atoms of a coarse node are visited in the order of its graph with
+    a counter that starts at 0.  [desc_of molA namedA n] describes atom n when the loop reaches the coarse node: [Old v] - it was
+    named v by an EARLIER coarse node (its first owner) - or [New e sh] - element e, sh = it belongs to several coarse nodes.
+    [exact used shn idx ds vs shn']: an Old atom keeps its name and the counter advances by one; a New atom gets
+    element ++ str(i) with i the LEAST index >= counter ([lfree]) whose label is not in [used] (the names already carried by
+    atoms of this coarse node) nor - for a shared atom - in [shn] (the names of the shared atoms named so far in the whole
+    molecule); the counter continues at i + 1. *)
+Theorem C12_bump_least : forall fuel taken e idx i, bump_idx fuel taken e idx = Ok i -> lfree taken e idx i.
+Proof. exact bump_least. Qed.
+(** the `while` loop of the naming always ends within the fuel of the model when labels of one element differ pairwise *)
+Theorem C12_bump_total : forall e, (forall i j, 0 <= i -> 0 <= j -> atom_label e i = atom_label e j -> i = j) ->
+  forall fuel taken idx, 0 <= idx -> (length taken < fuel)%nat -> exists i, bump_idx fuel taken e idx = Ok i.
+Proof. exact bump_total. Qed.
+Theorem C12_assign_exact : forall used ds shn idx vs shn', assign used shn idx ds = Ok (vs, shn') -> exact used shn idx ds vs shn'.
+Proof. exact assign_exact. Qed.
+(** the specification determines the names: it IS the closed form *)
+Theorem C12_exact_unique : forall used ds shn idx vs1 s1 vs2 s2,
+  exact used shn idx ds vs1 s1 -> exact used shn idx ds vs2 s2 -> vs1 = vs2 /\ s1 = s2.
+Proof. exact exact_unique. Qed.
+Theorem C12_assign_total : forall E, (forall e i j, In e E -> 0 <= i -> 0 <= j -> atom_label e i = atom_label e j -> i = j) ->
+  forall used ds shn idx, 0 <= idx -> incl (news ds) E -> exists vs shn', assign used shn idx ds = Ok (vs, shn').
+Proof. exact assign_total. Qed.
+(** first owner, first coarse node with atoms (nothing named before): every atom - shared or not - is named
+    element ++ str(position) *)
+Theorem C12_exact_first_group : forall E,
+  (forall e e' i j, In e E -> In e' E -> 0 <= i -> 0 <= j -> atom_label e i = atom_label e' j -> i = j) ->
+  forall ds shn idx vs shn', 0 <= idx -> incl (news ds) E -> olds ds = [] ->
+  (forall v, In v shn -> exists e j, In e E /\ 0 <= j < idx /\ v = VStr (atom_label e j)) ->
+  exact [] shn idx ds vs shn' -> vs = pos_names idx ds.
+Proof. exact exact_first_group. Qed.
+(** one coarse node of set_atom_names: its names afterwards are the ones [exact] describes, atoms named before keep their names
+    (later owners), nothing else changes *)
+Theorem C12_group_exact : forall mol fgs named shn mn nodes mol1 fgs1 named1 shn1,
+  name_group2 (mol, fgs, named, shn) (mn, nodes) = Ok (mol1, fgs1, named1, shn1) -> NoDup nodes ->
+  exists ds vs, GraphOps.map_res (desc_of mol named) nodes = Ok ds /\
+    exact (olds ds) shn 0 ds vs shn1 /\
+    map (name_in mol1) nodes = map Some vs /\
+    (forall k, ~ In k nodes -> node_attrs mol1 k = node_attrs mol k) /\
+    (forall k, In k named1 <-> In k named \/ In k nodes) /\
+    (forall k, In k named -> name_in mol1 k = name_in mol k).
+Proof. exact group_exact. Qed.
+(** the whole naming, on the RETURNED fine graph mol': for every coarse node (mn, nodes) of the fragment list there is the state
+    the loop has reached before it - molA differs from the input only in 'atomname', namedA = the atoms of the earlier coarse
+    nodes, whose names are final, shnA = the (final) names of those of them that belong to several coarse nodes ([sh_of]: the
+    fragid has more than one entry) - such that the names of the atoms of mn in mol' are exactly what [exact] describes *)
+Theorem C12_set_atom_names_closed_form : forall mol meta fgs mol' fgs', set_atom_names mol meta fgs = Ok (mol', fgs') ->
+  (forall g, In g (fraglist_of meta fgs) -> NoDup (snd g)) ->
+  forall pre mn nodes post, fraglist_of meta fgs = (pre ++ (mn, nodes) :: post)%list ->
+  exists (molA : graph) (namedA : list Z) (shnA : list pyval) ds vs shnB,
+    (forall k, In k namedA <-> exists g, In g pre /\ In k (snd g)) /\
+    (forall k, In k namedA -> name_in molA k = name_in mol' k) /\
+    (forall k key, key <> S "atomname" -> node_get molA k key = node_get mol k key) /\
+    (forall v, In v shnA <-> exists n, In n namedA /\ sh_of mol n /\ name_in mol' n = Some v) /\
+    GraphOps.map_res (desc_of molA namedA) nodes = Ok ds /\
+    exact (olds ds) shnA 0 ds vs shnB /\
+    map (name_in mol') nodes = map Some vs.
+Proof. exact set_atom_names_closed_form. Qed.
+(** non-vacuity on the two-owner witness (C12_two_owners_named_apart): the fragment list has three coarse nodes with duplicate-free
+    atom lists and the naming returns; coarse node 1 = [2; 3] meets two new atoms, the second one shared, when the shared name C1
+    is taken: the specification gives C0 and C2 (the least free index from the counter 1 on is 2); 'C' labels differ pairwise *)
+Example C12_set_atom_names_closed_form_nonvacuous :
+  let mol := [atom 0 "C" [0]; atom 1 "C" [0; 2]; atom 2 "C" [1]; atom 3 "C" [1; 2]] in
+  let fgs := [(0, cgraph [0; 1]); (1, cgraph [2; 3]); (2, cgraph [1; 3])] in
+  fraglist_of (cmeta [0; 1; 2]) fgs = [(0, [0; 1]); (1, [2; 3]); (2, [1; 3])] /\
+  (forall g, In g (fraglist_of (cmeta [0; 1; 2]) fgs) -> NoDup (snd g)) /\
+  (exists r, set_atom_names mol (cmeta [0; 1; 2]) fgs = Ok r) /\
+  exact [] [VStr (S "C1")] 0 [New (S "C") false; New (S "C") true] [VStr (S "C0"); VStr (S "C2")] [VStr (S "C2"); VStr (S "C1")] /\
+  (forall i j, 0 <= i -> 0 <= j -> atom_label (S "C") i = atom_label (S "C") j -> i = j).
+Proof.
+  cbv zeta. split; [vm_compute; reflexivity|]. split.
+  { intros g Hg. cbn in Hg. repeat (destruct Hg as [<-|Hg]; [cbn; repeat constructor; cbn; intuition discriminate|]). contradiction. }
+  split; [eexists; vm_compute; reflexivity|]. split.
+  - cbn [exact]. exists 0. split; [apply lfree_here; vm_compute; reflexivity|]. split; [reflexivity|].
+    exists 2. split; [|split; reflexivity].
+    split; [lia|]. split; [vm_compute; reflexivity|]. intros j Hj. assert (j = 1) as -> by lia. vm_compute. reflexivity.
+  - intros i j Hi Hj Hl. apply (label_inj (S "C") (S "C") i j); auto; reflexivity.
+Qed.
+
 (** ---- input-only dependence *)
 (** frag_order_irrelevant: the order of the definitions in a fragment block with unique names is immaterial
     for every lookup, hence for the whole resolution step *)
@@ -334,6 +413,14 @@ Print Assumptions C12_sort_graph.
 Print Assumptions C12_ref_remap.
 Print Assumptions C12_relabel_adjacent.
 Print Assumptions C12_resolve_all_is_driver_instance.
+Print Assumptions C12_bump_least.
+Print Assumptions C12_bump_total.
+Print Assumptions C12_assign_exact.
+Print Assumptions C12_exact_unique.
+Print Assumptions C12_assign_total.
+Print Assumptions C12_exact_first_group.
+Print Assumptions C12_group_exact.
+Print Assumptions C12_set_atom_names_closed_form.
 
 (** ---- source tie: the model of sort_nodes_by_attr IS the function regenerated from /repo's text on this run
     (theories/Gen/GraphUtilsGen.v by tools/gen_graphutils.py, primitives in Resolve/SourcePrims.v).  Hypotheses: the
@@ -356,3 +443,26 @@ Proof.
   repeat constructor; cbn; repeat constructor.
 Qed.
 Print Assumptions C12_sort_model_is_source.
+
+(** ---- source tie: set_atom_names_atomistic called with a coarse graph (the resolver's call).  The 'graph' attributes of
+    the coarse nodes are the store [fgs] kept beside the coarse graph.  Hypotheses: the coarse graph is not empty (an empty
+    graph is falsy in Python: the source then groups by 'fragid' as if no coarse graph were given, the model names nothing)
+    and its keys are distinct.  The `while` of the source is translated with a fuel (1 + the sizes of the two name sets it
+    tests); SourceTie.bump_total shows it never runs out. *)
+Theorem C12_names_model_is_source : forall mol meta fgs, meta <> [] -> NoDup (node_keys meta) ->
+  GraphUtilsGen.gen_set_atom_names_atomistic mol meta fgs = GraphOps.set_atom_names mol meta fgs.
+Proof. exact SourceTie.names_is_source. Qed.
+Example C12_names_model_is_source_nonvacuous :
+  let mol := add_node (add_node (add_node gempty 0 [(S "element", VStr (S "C")); (S "fragid", VList [VInt 0])])
+                                1 [(S "element", VStr (S "C")); (S "fragid", VList [VInt 0; VInt 1])])
+                      2 [(S "element", VStr (S "C")); (S "fragid", VList [VInt 1])] in
+  let meta := add_node (add_node gempty 0 []) 1 [] in
+  let fgs := [(0, add_node (add_node gempty 0 []) 1 []); (1, add_node (add_node gempty 1 []) 2 [])] in
+  meta <> [] /\ NoDup (node_keys meta) /\
+  match GraphOps.set_atom_names mol meta fgs with
+  | Ok (m, f) => map (fun k => node_get m k (S "atomname")) [0; 1; 2] = [Some (VStr (S "C0")); Some (VStr (S "C1")); Some (VStr (S "C2"))]
+                 /\ option_map (fun g => node_get g 1 (S "atomname")) (fg_get 1 f) = Some (Some (VStr (S "C1")))
+  | Err _ => False
+  end.
+Proof. cbv zeta. split; [discriminate|]. split; [repeat constructor; cbn; intuition discriminate|vm_compute; split; reflexivity]. Qed.
+Print Assumptions C12_names_model_is_source.
